@@ -601,15 +601,18 @@ impl<RW: QueueRW<T>, T> InnerRecv<RW, T> {
         }
     }
 
-    pub fn unsubscribe(self) -> bool {
-        self.reader.get_consumers() == 1
+    pub fn unsubscribe(mut self) -> bool {
+        unsafe { self.do_unsubscribe_with(|| ()) }
     }
 
-    /// Runs the passed function after unsubscribing the reader from the queue
-    unsafe fn do_unsubscribe_with<F: FnOnce()>(&mut self, f: F) {
+    /// Runs the passed function after unsubscribing the reader from the queue.
+    /// Returns true if this was the last handle of its stream.
+    unsafe fn do_unsubscribe_with<F: FnOnce()>(&mut self, f: F) -> bool {
+        let mut was_last = false;
         if self.alive {
             self.alive = false;
             if self.reader.remove_consumer() == 1 {
+                was_last = true;
                 if self
                     .queue
                     .tail
@@ -622,6 +625,7 @@ impl<RW: QueueRW<T>, T> InnerRecv<RW, T> {
             fence(SeqCst);
             f()
         }
+        was_last
     }
 }
 
@@ -691,8 +695,13 @@ impl<RW: QueueRW<T>, T> FutInnerRecv<RW, T> {
     }
 
     /// Identical to InnerRecv::unsubscribe()
-    pub fn unsubscribe(self) -> bool {
-        self.reader.reader.get_consumers() == 1
+    pub fn unsubscribe(mut self) -> bool {
+        let prod_wait = self.prod_wait.clone();
+        unsafe {
+            self.reader.do_unsubscribe_with(|| {
+                prod_wait.notify();
+            })
+        }
     }
 }
 
@@ -732,8 +741,13 @@ impl<RW: QueueRW<T>, R, F: FnMut(&T) -> R, T> FutInnerUniRecv<RW, R, F, T> {
     }
 
     /// Identical to InnerRecv::unsubscribe()
-    pub fn unsubscribe(self) -> bool {
-        self.reader.reader.get_consumers() == 1
+    pub fn unsubscribe(mut self) -> bool {
+        let prod_wait = self.prod_wait.clone();
+        unsafe {
+            self.reader.do_unsubscribe_with(|| {
+                prod_wait.notify();
+            })
+        }
     }
 
     pub fn into_multi(self) -> FutInnerRecv<RW, T> {
@@ -1045,7 +1059,9 @@ impl<RW: QueueRW<T>, T> Drop for InnerSend<RW, T> {
 
 impl<RW: QueueRW<T>, T> Drop for InnerRecv<RW, T> {
     fn drop(&mut self) {
-        unsafe { self.do_unsubscribe_with(|| ()) }
+        unsafe {
+            self.do_unsubscribe_with(|| ());
+        }
     }
 }
 
@@ -1084,7 +1100,7 @@ impl<RW: QueueRW<T>, T> Drop for FutInnerRecv<RW, T> {
         unsafe {
             self.reader.do_unsubscribe_with(|| {
                 prod_wait.notify();
-            })
+            });
         }
     }
 }
@@ -1095,7 +1111,7 @@ impl<RW: QueueRW<T>, R, F: for<'r> FnMut(&T) -> R, T> Drop for FutInnerUniRecv<R
         unsafe {
             self.reader.do_unsubscribe_with(|| {
                 prod_wait.notify();
-            })
+            });
         }
     }
 }
